@@ -38,7 +38,10 @@ generated file, exit code stays 0, and every tie theorem that mentions it stops 
                x = C(a, ..) / x = <object-valued call> (LOCAL OBJECT, below) | x.attr = e | x.attr op= e |
                print(...) (dropped; strings are opaque, below) |
                for i in range(a[, b[, step]]): … | for x in L: … (L a list variable the body does not modify) |
-               while c: … | while True: … | while 1: … | break | continue          (LOOPS, below)
+               while c: … | while True: … | while 1: … | break | continue          (LOOPS, below) |
+               for k, x in enumerate(L): … | L[i] = e / L[i] op= e on a list of numbers created in this function (by a display or
+               `[c] * n`) | T[i, j] = e on a table created by np.zeros | raise E(…) | x = lambda p: e (LAMBDAS, below) |
+               the DECLARED statement forms of the third generation (FEATURE COLUMNS, WRITE LOG, DECLARED COLLECTIONS, below)
   expressions  names, int / float / bool literals, unary - + not, + - * / on floats (int operands converted),
                + - * // % >> on ints, ** and pow(x, y) with a float operand (uninterpreted `pow`), comparisons (chains of
                two), `x in L` / `x not in L` (x an int or a tuple of ints), and / or / & / | on bools, e1 if c else e2,
@@ -48,8 +51,14 @@ generated file, exit code stays 0, and every tie theorem that mentions it stops 
                math.fabs, abs, min/max of numbers (n-ary; CPython's "first among equals"), float(x), int(x) (uninterpreted
                `trunc` on a float), x.is_integer(), declared attributes / accessors of object parameters, attributes of
                local objects, module constants, class constants `C.NAME`, calls of other whitelisted functions / methods of
-               the same file, calls DECLARED to be the identity on a list (`assume_identity`, below).
-  NOT accepted comprehensions, recursion, slices, subscript assignment, try, with, lambda, global, for/while ... else, starred /
+               the same file, calls DECLARED to be the identity on a list (`assume_identity`, below),
+               `[c] * n` (Py.replicate), `b * x` with b a bool and x a float (True is 1), `sys.float_info.max` (parameter `dblmax`),
+               `x != None` / `x is not None` / `x == None` / `x is None` on a number / bool / list (constant: such a value is not None;
+               for a PARAMETER this is part of its declared type), `range(a[, b])` as a value (the list of its ints),
+               `T[i, j]`, `T.shape[0]`, `np.zeros((r, c))` on TABLES, `p.name(args)` for a DECLARED accessor with arguments of an
+               object parameter, `self.m(args)` in a method (the translated method of the same class on the same declared object),
+               a call of a local bound to a lambda.
+  NOT accepted comprehensions, recursion, slices, subscript assignment into a parameter, try, with, global, for/while ... else, starred /
                keyword arguments, omitted (defaulted) arguments except in a constructor call, truthiness of non-bools
                (except `while 1`), a name that may be unbound unless it is DECLARED `unbound[τ]`, a function that can fall
                off its end unless its return type is optional, an object used as a plain value (alias, argument of an
@@ -106,6 +115,41 @@ LOOPS.  K, the CONTINUATION CONTEXT, says what `return v`, the end of the statem
   ⟦if c: A else: B ; rest⟧ when A, B contain no return/break/continue, rest contains a loop, and every variable A, B bind is
     already bound (or declared `unbound[τ]`): translated WITH A JOIN instead of duplicating rest —
         Py.bind (if c then ⟦A⟧_join else ⟦B⟧_join) fun j => let x₁ := j.1; …; ⟦rest⟧_K      (⟦·⟧_join: end ↦ .ok (x₁, …))
+THIRD GENERATION (C11, C15, C12) — each DECLARED form is an ASSUMPTION stated with the tie that uses it:
+  ⟦for k, x in enumerate(L): B⟧  = forList over `Py.enumerate L` = [(0, L[0]), (1, L[1]), …]; the body binds k and x from the pair.
+  ⟦L[i] = e⟧ = Py.bind (Py.setIdx L i v) fun L => …   (Python's negative indices, IndexError; L must have been created in this function
+    by a list display or `[c] * n`, so no alias of it exists; the index expression must be pure). `L[i] op= e` is `L[i] = L[i] op e`.
+  ⟦raise E(…)⟧ = .error Py.Err.raised (class and message are not tracked; the arguments are not evaluated).
+  IF-JOIN, extended: an `if`/`else` ahead of a loop may also bind a NEW variable when both branches bind it by a plain top-level
+    assignment with the same type (`if m == AND: comp = True else: comp = False`); it joins the tuple after the already-bound ones.
+  ISINSTANCE, refined: `isinstance(p, C)` is decided from the declared kind of parameter p when p has not been assigned on the path to the
+    test (and, inside a loop, nowhere in that loop) — so `if not isinstance(p, list): p = [p]` is dropped for a declared list and
+    `if isinstance(kernel, Kernel): … kernel = kernel.toSlidingWindow()` takes its first branch for {"__isinstance__": "Kernel"}.
+    Kinds: list[..] / table: list; objlist[..]: Track; `col` / `name`: str; {"__isinstance__": "K"}: class K only.
+  LAMBDAS: `f = lambda p: e` is kept as syntax (refused if e reads a name the function assigns); `g = h(f)` for h DECLARED in
+    "assume_identity_fn" (np.vectorize: ASSUMED to behave as f on the scalar arguments it is called with) is f; `f(a)` is e with p := a
+    (p must be a new name, or a must be the variable p itself). {"assume_true": ["output.shape == ()"]} / {"assume_false": [..]}: an `if`
+    whose test is EXACTLY this text takes that branch (the 0-d result of a vectorised call on a scalar; `str(kernel) == 'Dirac kernel'`).
+  FEATURE COLUMNS: a parameter of type `col` is a feature NAME seen as the column it designates (`list[col]`: a list of names); for an
+    object parameter declared with {"getObsAnalyticalFeature(col,int)": "float"}, `p.getObsAnalyticalFeature(c, i)` is `Py.getIdx c i`
+    (ASSUMED: the name is a key of the track's feature table, the column has one value per observation, negative i counts from the end as
+    `__POINTS[i]` does, and the column is not changed by the function's own writes — see WRITE LOG). A parameter of type `name` is an
+    opaque string that is only passed on: it has no Lean parameter. A key "name(τ1,..)" other than (col,int) declares an UNINTERPRETED pure
+    function of the object: one parameter `<param>_<name> : τ1 → .. → ρ` (`self.__kernel_function(x)`).
+  WRITE LOG {"write_log": "track.setObsAnalyticalFeature"}: the function has no return statement and its only effect is the calls
+    `setter(<name parameter>, i, v)`; each appends (i, v) to `py_log` (a loop-state variable like any other), and the translation returns
+    the log (declared return type list[tuple[int,τ]]). ASSUMED: the feature written is not read back by the function at an index it has
+    already written (true of segmentation(): observation i is read before it is written, no other index is touched at step i).
+  DECLARED COLLECTIONS {"new_list": {"tracklib.TrackCollection": "list[record[Piece]]"}, "append_methods": ["addTrack"]}: this
+    constructor call makes an empty list of the declared element type, this method appends to it. {"record_methods": {"length": "float"}}:
+    `r.length()` on a record of view V is the UNINTERPRETED function parameter `V_length : <V's tuple> → float` (ASSUMED pure, total).
+    {"make": {"track.extract(_, _)": "Piece"}}: a sub-track seen as its two bounds (ASSUMED: extract does not raise on the bounds the loop
+    produces; what the piece contains is `Track.extract`'s business — C11's model proves the bounds determine it).
+  TABLES: `table[float]` is a 2-D numpy array of floats used as a plain table = the list of its rows: `T.shape[0]` = Py.len,
+    `np.zeros((r, c))` = Py.zeros2 (ValueError on a negative dimension), `T[i, j]` = Py.getIdx2, `T[i, j] = e` = Py.setIdx2 on a table created
+    in this function (e converted to a float, as a float64 array does). ASSUMED of a table PARAMETER: it is rectangular float64 data.
+    {"result_through": ["backward"]}: `return backward(M)` is translated as `return M` — the tie is about the table, what `backward` makes
+    of it is outside the translation. {"assume_identity": ["progressbar.progressbar"]} also accepts a dotted function name.
 RECORDS AND OBSERVATION LISTS (objects that are only READ; table VIEWS below).  `record[V]`: an object seen through the DECLARED
   access paths of view V (attributes and argument-less accessors, ASSUMED pure): the tuple of those components. `objlist[V]`: a
   Track seen as the list of its observations (`X.getObs(e)`, `X[e]`: Py.getIdx — Python indexing, IndexError; `X.getFirstObs()`,
@@ -245,6 +289,10 @@ WHITELIST = [
      {"count": "int", "begin": "int"},
      {"new_list": {"tracklib.TrackCollection": "list[record[Piece]]"}, "append_methods": ["addTrack"],
       "make": {"track.extract(_, _)": "Piece"}, "record_methods": {"length": "float"}, "assume_noop": ["newtrack.setUid"]}),
+    # ---- C12: the D / M tables of optimalPartition (the backward pass `backward(M)` is outside: the translation returns M)
+    ("algo/segmentation.py", "optimalPartition", "optimalPartition_tables",
+     {"cost_matrix": "table[float]", "mode": "int", "verbose": "bool"}, "table[float]", {},
+     {"assume_identity": ["progressbar.progressbar"], "result_through": ["backward"]}),
     # ---- C15: the kernel window and the filter loops
     ("core/kernel.py", "Kernel.evaluate", "Kernel_evaluate",
      {"self": {"support": "float", "__kernel_function(float)": "float"}, "x": "float"}, "float", {},
@@ -346,6 +394,8 @@ def parse_ty(s):
     s = s.replace(" ", "")
     if s in ("float", "int", "bool"):
         return {"float": "F", "int": "I", "bool": "B"}[s]
+    if s == "table[float]":
+        return ("L", ("L", "F"))  # a 2-D numpy array of floats used as a plain table: the list of its rows (TABLES, header)
     if s == "col":
         return ("L", "F")        # a feature NAME, seen as the column it designates (FEATURE COLUMNS, header)
     if s == "name":
@@ -737,6 +787,19 @@ class FnTranslator:
             r = self.rec_access(e, env, binds)
             if r is not None:
                 return r
+        if isinstance(e, ast.Subscript) and isinstance(e.value, ast.Attribute) and e.value.attr == "shape" \
+                and isinstance(e.slice, ast.Constant) and e.slice.value == 0 and isinstance(e.value.value, ast.Name) \
+                and env.get(e.value.value.id) == ("L", ("L", "F")):
+            return Val("(Py.len %s)" % ident(e.value.value.id), "I")       # T.shape[0]: the number of rows of a table
+        if isinstance(e, ast.Subscript) and isinstance(e.slice, ast.Tuple) and len(e.slice.elts) == 2 \
+                and isinstance(e.value, ast.Name) and env.get(e.value.id) == ("L", ("L", "F")):
+            i1 = self.expr(e.slice.elts[0], env, binds)
+            i2 = self.expr(e.slice.elts[1], env, binds)
+            if i1.ty != "I" or i2.ty != "I":
+                bad(e, "table index that is not an int")
+            t = self.tmp()          # T[i, j]: row i (negative indices as numpy / Python, IndexError), then item j likewise
+            binds.append((t, "(Py.getIdx2 %s %s %s)" % (ident(e.value.id), i1.term, i2.term)))
+            return Val(t, "F")
         if isinstance(e, ast.Subscript):
             v = self.expr(e.value, env, binds)
             k = e.slice
@@ -1342,6 +1405,26 @@ class FnTranslator:
             if not (isinstance(v.ty, tuple) and v.ty[0] == "L"):
                 bad(e, "len of something that is not a list")
             return Val("(Py.len %s)" % v.term, "I")
+        if isinstance(f, ast.Name) and f.id == "range" and "range" not in env and 1 <= len(e.args) <= 2:
+            vals = [self.expr(x, env, binds) for x in e.args]       # range(a[, b]) as a value: the list of its ints
+            if any(v.ty != "I" for v in vals):
+                bad(e, "range() of non-ints")
+            return Val("(Py.range %s %s)" % ("(0 : Int)" if len(vals) == 1 else vals[0].term, vals[-1].term), ("L", "I"))
+        if ast.unparse(f) == "np.zeros" and "np" not in env and len(e.args) == 1 and isinstance(e.args[0], ast.Tuple) \
+                and len(e.args[0].elts) == 2:
+            vals = [self.expr(x, env, binds) for x in e.args[0].elts]      # np.zeros((r, c)): r rows of c zeros (TABLES)
+            if any(v.ty != "I" for v in vals):
+                bad(e, "np.zeros of non-ints")
+            self.ofnat.add(0)
+            t = self.tmp()          # ValueError on a negative dimension
+            binds.append((t, "(Py.zeros2 %s %s (0 : α))" % (vals[0].term, vals[1].term)))
+            return Val(t, ("L", ("L", "F")))
+        if isinstance(f, ast.Attribute) and ast.unparse(f) in self.opts.get("assume_identity", ()) and len(e.args) == 1 \
+                and isinstance(f.value, ast.Name) and f.value.id not in env:
+            v = self.expr(e.args[0], env, binds)      # DECLARED identity on a list (e.g. progressbar.progressbar on a range)
+            if not (isinstance(v.ty, tuple) and v.ty[0] == "L"):
+                bad(e, "%s is only assumed to be the identity on a list" % ast.unparse(f))
+            return v
         if isinstance(f, ast.Name) and f.id not in env and f.id in self.opts.get("assume_identity", ()) and len(e.args) == 1:
             # DECLARED in the signature: on this argument the call returns its argument unchanged (e.g. `listify` on a list)
             v = self.expr(e.args[0], env, binds)
@@ -1866,6 +1949,16 @@ class FnTranslator:
             # L[i] = e on a list created in this function: Py.setIdx (Python's negative indices, IndexError)
             tgt = s.targets[0]
             x = tgt.value.id
+            if x in fresh and env.get(x) == ("L", ("L", "F")) and isinstance(tgt.slice, ast.Tuple) and len(tgt.slice.elts) == 2:
+                # T[i, j] = e on a table created in this function by np.zeros: Py.setIdx2 (the value is stored as a float)
+                binds = []
+                i1 = self.expr(tgt.slice.elts[0], env, binds)
+                i2 = self.expr(tgt.slice.elts[1], env, binds)
+                if binds or i1.ty != "I" or i2.ty != "I":
+                    bad(s, "table index that can raise / is not an int in an item assignment")
+                v = self.expr(s.value, env, binds)
+                binds.append((ident(x), "(Py.setIdx2 %s %s %s %s)" % (ident(x), i1.term, i2.term, self.coerce(s.value, v, "F"))))
+                return self.close(binds, self.block(rest, env, fresh, K))
             if x not in fresh or not (isinstance(env.get(x), tuple) and env[x][0] == "L" and env[x][1] in ("F", "I")):
                 bad(s, "item assignment to something that is not a list of numbers created (and typed) in this function")
             if isinstance(tgt.slice, (ast.Slice, ast.Tuple)):
@@ -1952,6 +2045,10 @@ class FnTranslator:
                 binds.append((ident(x), "(Py.removeFirst %s %s %s)" % (eqv, ident(x), term)))   # ValueError when absent
                 return self.close(binds, self.block(rest, env, fresh, K))
             bad(s, "expression statement")
+        if isinstance(s, ast.Return) and isinstance(s.value, ast.Call) and ast.unparse(s.value.func) in self.opts.get("result_through", ()) \
+                and len(s.value.args) == 1 and not s.value.keywords:
+            # DECLARED: `return g(T)` — the translation returns T itself (what g makes of it is outside the translation)
+            return self.block([ast.copy_location(ast.Return(value=s.value.args[0]), s)] + rest, env, fresh, K)
         if isinstance(s, ast.Return):
             if s.value is None or (isinstance(s.value, ast.Constant) and s.value.value is None):
                 if isinstance(self.ret, tuple) and self.ret[0] == "O":
@@ -2071,7 +2168,8 @@ class FnTranslator:
                     return self.block(rest, env2, fresh - {x}, K)
                 env2 = dict(env)
                 env2[x] = ty
-                fresh2 = (fresh | {x}) if (isinstance(val, ast.List) or (isinstance(val, ast.BinOp) and isinstance(val.left, ast.List))) \
+                fresh2 = (fresh | {x}) if (isinstance(val, ast.List) or (isinstance(val, ast.BinOp) and isinstance(val.left, ast.List))
+                                           or (isinstance(val, ast.Call) and ast.unparse(val.func) == "np.zeros")) \
                     else (fresh - {x})
                 body = "let %s : %s := %s;\n%s" % (ident(x), lean_ty(ty), term, self.block(rest, env2, fresh2, K))
                 return self.close(binds, body)
